@@ -9,6 +9,7 @@ import (
 	"os"
 	"path/filepath"
 	"sync"
+	"syscall"
 	"testing"
 	"time"
 )
@@ -277,6 +278,53 @@ func runC05(em *vEmitter, t *testing.T) {
 			c.Close()
 		}
 		time.Sleep(20 * time.Millisecond)
+	}
+
+	// (5c) the process runs out of file descriptors for a moment while clients are waiting in the listen
+	// queue (accept fails with EMFILE): when descriptors are back, every queued client and every new one
+	// gets exactly one reply with the callback's verdict
+	{
+		var lim syscall.Rlimit
+		syscall.Getrlimit(syscall.RLIMIT_NOFILE, &lim)
+		ents, _ := os.ReadDir("/proc/self/fd")
+		low := lim
+		low.Cur = uint64(len(ents) + 30)
+		if low.Cur > lim.Cur {
+			low.Cur = lim.Cur
+		}
+		syscall.Setrlimit(syscall.RLIMIT_NOFILE, &low)
+		var hold []*os.File
+		for {
+			f, err := os.Open("/dev/null")
+			if err != nil {
+				break
+			}
+			hold = append(hold, f)
+		}
+		var queued []net.Conn
+		for k := 0; k < 3 && len(hold) > 0; k++ {
+			hold[len(hold)-1].Close()
+			hold = hold[:len(hold)-1]
+			if c, err := net.Dial("unix", sock); err == nil {
+				queued = append(queued, c)
+			}
+		}
+		time.Sleep(300 * time.Millisecond)
+		for _, f := range hold {
+			f.Close()
+		}
+		syscall.Setrlimit(syscall.RLIMIT_NOFILE, &lim)
+		for _, c := range queued {
+			c.Close()
+		}
+		time.Sleep(50 * time.Millisecond)
+		for k := 0; k < 4; k++ {
+			sc := okSc
+			if k%2 == 1 {
+				sc = noSc
+			}
+			emit(valid(), k < 2, sc, "after-descriptor-exhaustion")
+		}
 	}
 
 	// (6) concurrent connections: every connection must get its own answer
